@@ -183,7 +183,7 @@ prop('C18', 'panics in user code leave the container consistent',
 
 
 prop('C12', 'containers are isolated',
-     [I.rule_addr_guard, I.rule_addr_before_gen, I.rule_own_storage, O.rule_pay_cas, O.rule_mp, T.rule_node_stable],
+     [I.rule_addr_guard, I.rule_addr_before_gen, I.rule_own_storage, O.rule_pay_cas, O.rule_mp, T.rule_node_stable, R.rule_confirmed_origin, K.rule_kind_disjoint],
      'Decides: a helper produces and hands over a replacement only when the reader\'s published address, re-read in the '
      'same retry iteration, equals the address of the cell being written, and the exchange expects exactly the '
      'generation that was matched (ADDR-GUARD, GEN-REVALIDATE); the reader publishes the address before the generation '
@@ -232,7 +232,7 @@ PROPERTIES['C01']['run'] = _run([R.rule_publish_confirm, R.rule_intent_first, R.
 PROPERTIES['C02']['run'] = _run([L.rule_ledger, L.rule_bypass, R.rule_pay_used, O.rule_pay_cas, R.rule_slot_closed, R.rule_cover_all, A.rule_no_stash, _core])
 
 prop('C03', 'loads are linearizable (provenance clause)',
-     [R.rule_publish_confirm, R.rule_intent_first, I.rule_addr_guard, I.rule_addr_before_gen, I.rule_own_storage, R.rule_pay_before_release, A.rule_no_stash, _ord_seq],
+     [R.rule_publish_confirm, R.rule_confirmed_origin, R.rule_intent_first, I.rule_addr_guard, I.rule_addr_before_gen, I.rule_own_storage, R.rule_pay_before_release, A.rule_no_stash, _ord_seq],
      'Decides the clause "what a load returns was read from THIS cell INSIDE the call, after the reader made itself visible, '
      'or was produced for it by a helper that validated cell and transaction": provenance of the pointer in every returned '
      'protection (PUBLISH-CONFIRM, INTENT-FIRST), helper validation (ADDR-GUARD, GEN-REVALIDATE, OWN-STORAGE), the helper\'s '
@@ -281,7 +281,7 @@ prop('C14', 'all strategies implement one sequential specification (structural c
      configs=['A', 'T'])
 
 prop('C15', 'pointer-kind laws',
-     [K.rule_refcnt_siblings, L.rule_bypass],
+     [K.rule_refcnt_siblings, K.rule_kind_disjoint, L.rule_bypass],
      'Decides REFCNT-SIBLINGS over every `unsafe impl RefCnt`: into_ptr / from_ptr / as_ptr / inc / dec change the count by '
      '+1 / -1 / 0 / +1 / -1 on every path (0 on the empty-value path), conversions are pure (no clone / upgrade), null '
      'symmetry across into_ptr / as_ptr / from_ptr (same predicate, same polarity, inner conversion only when non-null), '
